@@ -333,7 +333,7 @@ pub fn run_c13(ctx: &mut Ctx) {
         a mid-frame next_frame receives the frame as assembled so far) and compared per completed frame with a fresh whole-frame decode; and as a token trace compared with the Lean Reader model; \
         non-trivial = sequence contains a row-level call and a frame-level call, or >= 2 calls; distinct = hash(file, sequence)".into();
     let mut rng = ctx.rng.fork(1);
-    let files = small_valid_files(&mut rng, ctx.n(10, 40));
+    let files = small_valid_files(&mut rng, ctx.n(24, 40));
     let alphabet = [Op::NextFrame(0), Op::NextRow, Op::ReadRow, Op::NextFrameInfo];
     let max_len = ctx.n(5, 7);
     let mut seqs = all_sequences(&alphabet, max_len);
@@ -440,7 +440,7 @@ pub fn run_c09(ctx: &mut Ctx) {
         x default image inside/outside the animation x buffers pre-filled with 0x00 / 0xFF / random; successive next_frame results compared with the frames the file was built from: frame-control values, OutputInfo, the first line_size*height bytes, \
         bytes beyond them untouched, end-of-image afterwards; token traces compared with the Lean Reader model; non-trivial = at least 2 frames or a sub-frame; distinct = hash(file, prefill)".into();
     let mut rng = ctx.rng.fork(1);
-    let n = ctx.n(1200, 12000);
+    let n = ctx.n(4000, 12000);
     let mut runs = vec![];
     let mut traces = vec![];
     for i in 0..n {
@@ -736,9 +736,9 @@ pub fn run_c18(ctx: &mut Ctx) {
         oracle: after the terminal event every call returns an error or 'no more rows', never a panic, never a frame or row for a frame that failed or does not exist, and uses O(1) reads; \
         StreamingDecoder::reset: all ordered pairs from a pool of streams, decode of B after reset() following A vs fresh decode of B; token traces vs the Lean Reader model; distinct = hash(file, sequence)".into();
     let mut rng = ctx.rng.fork(1);
-    let mut files = failing_files(&mut rng, ctx.n(14, 70));
-    files.extend(small_valid_files(&mut rng, ctx.n(6, 24)));
-    files.extend(semantic_failing_files(&mut rng, ctx.n(12, 60)));
+    let mut files = failing_files(&mut rng, ctx.n(28, 70));
+    files.extend(small_valid_files(&mut rng, ctx.n(12, 24)));
+    files.extend(semantic_failing_files(&mut rng, ctx.n(24, 60)));
     // a 3-frame APNG whose first frame has an undefined filter-type byte in its fifth row (D19: found by the thorough tier)
     // (model_domain = false: the frame count of the reference decoder stops at the damaged frame; later frames do exist)
     files.push(corpus::TestFile { bytes: unhex(BAD_FILTER_APNG).unwrap_or_default(), source: "fail-mid-frame".into(), model_domain: false });
@@ -1029,7 +1029,7 @@ pub fn run_c05(ctx: &mut Ctx) {
         x retried call in {read_header_info, next_frame, next_row, read_row, next_frame_info, finish}: the call is repeated after every growth until it stops reporting end-of-input; oracle: every intermediate result is UnexpectedEof \
         (never a format error, never a success for an incomplete frame) and the sequence of non-EOF results equals the one-shot decode; traces vs the Lean Reader model; distinct = hash(file, cut, schedule, call)".into();
     let mut rng = ctx.rng.fork(1);
-    let files = small_valid_files(&mut rng, ctx.n(8, 30));
+    let files = small_valid_files(&mut rng, ctx.n(20, 30));
     let mut runs = vec![];
     let mut traces = vec![];
     let mut k = 0usize;
@@ -1242,8 +1242,8 @@ pub fn run_c02(ctx: &mut Ctx) {
         (calls retried or changed after UnexpectedEof, input grown in between); every call under catch_unwind in a build with debug assertions and overflow checks; oracle: no panic; traces vs the Lean Reader model; \
         non-trivial = at least 2 calls after read_info; distinct = hash(file, configuration, sequence)".into();
     let mut rng = ctx.rng.fork(1);
-    let mut files = corpus::mixed_files(&mut rng, ctx.n(30, 200), ctx.n(60, 500), ctx.n(300, 1416));
-    files.extend(chunk_soups(&mut rng, ctx.n(150, 1500)));
+    let mut files = corpus::mixed_files(&mut rng, ctx.n(80, 200), ctx.n(160, 500), ctx.n(600, 1416));
+    files.extend(chunk_soups(&mut rng, ctx.n(600, 1500)));
     files.extend(failing_files(&mut rng, ctx.n(14, 70)));
     let alphabet = [Op::NextFrame(0xFF), Op::NextRow, Op::ReadRow, Op::NextFrameInfo, Op::Finish];
     let mut runs = vec![];
